@@ -585,7 +585,7 @@ package soyhtml
 //@   nosafety
 //@   at call funcvalue#1 assert[a-function-is-applied-to-an-argument-list-of-this-call's-own;C01,C02] fresh(arg0)
 //@   loop 0
-//@     invariant fresh(args) && !isnil(args)
+//@     invariant[arguments-are-collected-in-a-list-of-this-call's-own;C01,C02,C08,C09] fresh(args) && !isnil(args)
 //@ func (*state).evalDataRef
 //@   like stateMethod
 //@   trustedensures[frames-kept;C02] len(s.context) == old(len(s.context)) && forall(i, 0, len(s.context), s.context[i].vars == old(s.context[i].vars) && s.context[i].entered == old(s.context[i].entered) && unchangedmap(s.context[i].vars)) && forall(i, 0, len(s.context), old(s.context)[i].vars == old(s.context[i].vars)) && otherarraysunchanged(s.context) && (base(s.context) == old(base(s.context)) || base(s.context) >= old(allocmark()))
